@@ -35,7 +35,7 @@ DEFAULT_ALPHA = 1e-2
 
 def generate(rng):
     cfg = sample_config(rng, families=SPARSE_FAMILIES, n_range=(4, 18), d_range=(2, 6), k_range=(2, 3), max_iter_range=(1, 5),
-                        alpha_choices=(1e-3, 0.05, 1.0, 20.0), lr_choices=(1e-2, 0.1), allow_callable=False)
+                        alpha_choices=(1e-3, 0.05, 1.0, 20.0), lr_choices=(1e-2, 0.1), allow_callable=False, p_big=0.1)
     d = cfg["d"]
     args = {"alpha_multiplier": weighted(rng, [(1.2, 1), (2.0, 3), (5.0, 3), (0.5, 0.5), (1.0, 0.5)]),
             "min_features": weighted(rng, [(1, 2), (2, 2), (max(1, d - 1), 2), (d, 0.7), (d + 2, 0.5), (0, 0.5), (-1, 0.3)]),
